@@ -101,10 +101,34 @@ def gen_case(rng, tier):
     m = gen_mdp.gen_mdp(rng, nmax=nmax, amax=3, gamma=gamma, proper=(gamma == "1" and rng.random() < .7))
     if rng.random() < .4:
         m = add_gadgets(rng, m)
+    if gamma == "1" and rng.random() < .6:
+        # trap: a non-absorbing state that can never reach an absorbing state (placeholder clause),
+        # entered by an extra action of some state; usually outside the initial support
+        t = m["n"]
+        m["n"] += 1
+        m["actions"].append([0])
+        m["absorbing"].append(False)
+        m["trans"]["%d,0" % t] = [[t, "1"]]
+        m["reward"]["%d,0,%d" % (t, t)] = str(F(rng.randint(-3, -1)))
+        src = rng.randrange(t)
+        if not m["absorbing"][src]:
+            a = rng.choice(m["actions"][src])
+            row = m["trans"]["%d,%d" % (src, a)]
+            # move half of one successor's mass to the trap
+            ns0, p0 = next((x, pp) for x, pp in row if F(pp) > 0)
+            row[row.index([ns0, p0])] = [ns0, str(F(p0) / 2)]
+            row.append([t, str(F(p0) / 2)])
+            if rng.random() < .5:
+                m["reward"]["%d,%d,%d" % (src, a, t)] = str(F(rng.randint(-2, 0)))
+                if m["reward"]["%d,%d,%d" % (src, a, t)] == "0":
+                    del m["reward"]["%d,%d,%d" % (src, a, t)]
+        if rng.random() < .3:
+            m["init"] = [[x, str(F(p) / 2)] for x, p in m["init"]] + [[t, "1/2"]]
     eps = rng.choice(["1/10", "1/100", "1/100000", "1/100000000"]) if rng.random() < .5 else "1/100000"
     mi = rng.choice([100000] * 8 + [1, 2, 5])
     return {"mdp": m, "max_residual": eps, "max_iterations": mi,
-            "undefined_value": rng.choice(["0", "0", "-7", "-inf"]), "explicit_lists": rng.random() < .3}
+            "undefined_value": rng.choice(["0", "-7", "-inf", "-inf"] if gamma == "1" else ["0", "0", "-7", "-inf"]),
+            "explicit_lists": rng.random() < .3}
 
 
 def mdp_terms(case, res):
